@@ -16,6 +16,7 @@ CONSTANTS
   FDataSet = {0}
   LenSet = {5}
   CachedSet = {FALSE}
+  DmgSet = {FALSE}
   KindSet = {"ok", "error"}
   Modes = {"direct"}
   DeliverAnyTime = FALSE
